@@ -22,12 +22,15 @@ from kdverif import core, tlc, fsaudit
 START, END = "autocopy_start.txt", "autocopy_end.txt"
 TMP_SUFFIX = ".autocopy_tmp"
 
-CONTENT = {"a": b"A" * 37 + b"\n" + bytes(range(256)) * 3, "b": b"B" * 1501}
+CONTENT = {"a": b"A" * 37 + b"\n" + bytes(range(256)) * 3, "b": b"B" * 1501, "c": b"C" * 64, "d": b"", "e": b"E" * 7}
 
 # layouts: abstract file -> relative path below dst; abstract dir -> relative path
 LAYOUTS = {
     "L1": dict(files={"a": "a.txt", "b": "s/b.txt"}, dirs={"s": "s"}, dirof={"a": ".", "b": "s"}),
     "L2": dict(files={"a": "c/a.txt", "b": "s/b.txt"}, dirs={"c": "c", "s": "s"}, dirof={"a": "c", "b": "s"}),
+    # five files, one zip each (folder of zips with several unzip workers)
+    "L5": dict(files={"a": "a.txt", "b": "s/b.txt", "c": "c.txt", "d": "d.txt", "e": "e.txt"}, dirs={"s": "s"},
+               dirof={"a": ".", "b": "s", "c": ".", "d": ".", "e": "."}),
 }
 
 
@@ -41,9 +44,16 @@ def scenarios(tier):
                     for order in ("startfirst", "startlast"):
                         nw = 1 if (fmt == "zips" and rel) else 0
                         res.append(dict(func=func, fmt=fmt, rel=rel, init=init, order=order, layout=layout, nw=nw))
+    # folder of five zips with 0..4 unzip workers (worker processes are not killed: clean runs only for nw >= 2)
+    for nw in ((0, 2, 3) if tier == "quick" else (0, 1, 2, 3, 4)):
+        res.append(dict(func="folder", fmt="zips", rel=None, init="absent", order="startfirst", layout="L5", nw=nw,
+                        depth=(1 if nw <= 1 else 0)))
     if tier == "quick":
         keep = []
         for s in res:
+            if s["layout"] == "L5":
+                keep.append(s)
+                continue
             if s["init"] != "absent":
                 # user folders: one order is enough (nothing is ever deleted there)
                 if s["order"] == "startlast" or s["rel"]:
@@ -84,7 +94,7 @@ def build_source(root, scn):
             for i, (f, rp) in enumerate(sorted(lay["files"].items())):
                 with zipfile.ZipFile(os.path.join(src, f"part{i}.zip"), "w") as z:
                     z.writestr(rp, CONTENT[f])
-    return g, os.path.join(root, "local")
+    return g, os.path.join(root, "localroot", "local")
 
 
 def init_local(local, scn):
@@ -198,6 +208,8 @@ class Explorer:
     def __init__(self, scn, root, depth):
         self.scn, self.root, self.depth = scn, root, depth
         self.g, self.local = build_source(root, scn)
+        self.localroot = os.path.dirname(self.local)
+        os.makedirs(self.localroot)
         self.dst = init_local(self.local, scn)
         self.snapdir = os.path.join(root, "snaps")
         os.makedirs(self.snapdir)
@@ -209,19 +221,15 @@ class Explorer:
         self.key = order_key(scn["order"])
 
     def snapshot(self):
+        # everything the function can touch lives below localroot (dst, its parents, the temporary sibling folder)
         self.nsnap += 1
         p = os.path.join(self.snapdir, str(self.nsnap))
-        if os.path.lexists(self.local):
-            shutil.copytree(self.local, p, symlinks=True)
-        else:
-            os.makedirs(p + ".absent")
+        shutil.copytree(self.localroot, p, symlinks=True)
         return p
 
     def restore(self, p):
-        if os.path.lexists(self.local):
-            shutil.rmtree(self.local)
-        if os.path.exists(p):
-            shutil.copytree(p, self.local, symlinks=True)
+        shutil.rmtree(self.localroot)
+        shutil.copytree(p, self.localroot, symlinks=True)
 
     def attempt(self, kill_at):
         self.attempts += 1
@@ -285,7 +293,7 @@ def explore_scenario(args):
     shutil.rmtree(root, ignore_errors=True)
     os.makedirs(root)
     try:
-        ex = Explorer(scn, root, depth)
+        ex = Explorer(scn, root, scn.get("depth", depth))
         init = None
         traces = ex.run()
         init = ex.initial_disk
@@ -440,6 +448,8 @@ def run(prop, tier, seed):
                 what = (f"clauses {clauses} fail on the observed state after event {at} "
                         f"({t['ev'][at - 1] if at >= 1 else None}) of the real run")
                 v.violation(crash_key(t), what, t)
+        # operations performed inside joblib worker processes are not visible to the audit hook: no conformance claim
+        trs = [t for t in trs if t["cfg"]["nw"] <= 1]
         acc2, prog, st2 = validate(trs, layout, "desc", proto=os.environ.get("KDVERIF_COPY_PROTO", "v1"))
         v.coverage["states"] += st2["states"]
         v.coverage["transitions"] += st2["transitions"]
